@@ -1,7 +1,7 @@
 """C16 - activity-coefficient models are normalised, consistent and side-effect free."""
 import random
 
-from harness import tlc
+from harness import core, tlc
 from harness.drivers import activity as da
 
 ASSUME = [
@@ -39,6 +39,8 @@ INVARIANT PositionFree
 CONSTRAINT Depth
 CHECK_DEADLOCK FALSE
 '''
+
+RULE = ' Counting: evaluations = every executed call; distinct_nontrivial = distinct (operation, arguments, state before the call) among the calls that were judged, i.e. in contract, not state shaping and (where the property says so) returned normally.'
 
 
 def key_of(step, clause):
@@ -84,6 +86,7 @@ def run(ctx):
     per = 50
     traces = [dict(id='G%d' % i, mode='fan', init=dict(n=0), steps=steps[i * per:(i + 1) * per]) for i in range((len(steps) + per - 1) // per)]
     defs, cfgc = da.tla_constants()
+    cases = []
     v = tlc.validate_traces('Activity', defs, cfgc, traces, procs=16)
     n_ok = 0
     per_model = {}
@@ -91,6 +94,7 @@ def run(ctx):
         x = v[t['id']]
         bad = dict(x['stepfail'])
         for l, s in enumerate(t['steps'], 1):
+            cases.append((True, [s['op'], s['a']]))
             if l in bad:
                 ctx.violation(key_of(s, bad[l]), '%s %r: %s obs=%r' % (s['op'], s['a'], bad[l], s['obs']),
                               dict(kind='note', detail='re-run the check with the same seed', op=s['op'], a=s['a'], clause=bad[l]))
@@ -106,6 +110,8 @@ def run(ctx):
                     'Real objects: random sets of 2-6 chemicals (0-2 without groups), interior / vertex / near-vertex / trace / edge compositions, 250-450 K, UNIFAC, '
                     'Dortmund, NIST, ideal: side effects, ones for chemicals without groups, functional form vs object, permutation, pure limit, Gibbs-Duhem; ideal '
                     'activity / fugacity / Poynting objects return exactly one')
+    cov.update(core.case_stats(cases))
+    cov['rule'] += RULE
     return 'exploration', cov, ASSUME
 
 
